@@ -3,7 +3,6 @@ package main
 import (
 	"fmt"
 	"os"
-	"os/exec"
 	"path/filepath"
 	"strings"
 	"time"
@@ -96,6 +95,7 @@ type c19Case struct {
 }
 
 type c19Obs struct {
+	cost    int64 // ticks of all runs
 	prepErr string
 	dump1   string
 	results []string
@@ -201,6 +201,7 @@ func (p *c19) execute(cs *c19Case, pol *verifsim.OrderPolicy) *c19Obs {
 		under(ctx, func() { r = doExecute(e, o) })
 		ob.results = append(ob.results, r.String())
 		ob.traces = append(ob.traces, joinTrace(h.Trace))
+		ob.cost += ctx.Ticks
 	}
 	ob.vars = showVars(e, cs.names)
 	// second Prepare of the same evaluator
@@ -329,7 +330,7 @@ func (p *c19) crossProcess(c *verifsim.Chooser, st *Stats, render bool) *Outcome
 	os.WriteFile(filepath.Join(dir, "s.in"), []byte(text), 0o644)
 	os.WriteFile(filepath.Join(dir, "d.json"), []byte(doc), 0o644)
 	runDrv := func(args ...string) string {
-		cmd := exec.Command(bin, args...)
+		cmd := childCommand(bin, args...)
 		cmd.Dir = dir
 		done := make(chan []byte, 1)
 		go func() { b, _ := cmd.CombinedOutput(); done <- b }()
@@ -395,17 +396,29 @@ func (p *c19) Run(c *verifsim.Chooser, st *Stats, render bool) *Outcome {
 	} else {
 		sc := GenScript(c, GenCfg{Funcs: true, Faults: false, Hashes: true, TieKeys: true, Prints: true, MaxStmts: 7})
 		cs.text = sc.Text
+		cs.names = sc.Globals
+		if c.Intn(5) == 1 {
+			pool := scriptPool()
+			cs.text = pool[c.Intn(len(pool))]
+			cs.names, _ = analyseNames(cs.text)
+		}
 		cs.opt = c.Intn(2) == 0
 		cs.init = c.Intn(2)
 		n := 1 + c.Intn(3)
 		for i := 0; i < n; i++ {
 			ob, d := c19Object(c)
+			if c.Intn(5) == 1 {
+				// an object kind from another property's workload, rebuilt for
+				// every execution from the same choices
+				tr := []int32{int32(c.Intn(4)), int32(c.Intn(60)), int32(c.Intn(6)), int32(c.Intn(5)), int32(c.Intn(4))}
+				ob = func() interface{} { o, _ := objectPool(verifsim.NewReplay(tr)); return o }
+				_, d = objectPool(verifsim.NewReplay(tr))
+			}
 			cs.objs = append(cs.objs, ob)
 			cs.descs = append(cs.descs, d)
 		}
-		cs.names = sc.Globals
 	}
-	currentDesc.Store("map-order case")
+	currentDesc.Store("map-order case: " + clip(strings.ReplaceAll(cs.text, "\n", " "), 160))
 	seedA, seedB := uint64(c.Intn(1<<30)), uint64(c.Intn(1<<30))+7
 
 	ref := p.execute(cs, &verifsim.OrderPolicy{Kind: verifsim.OrdAsc})
@@ -447,6 +460,12 @@ func (p *c19) Run(c *verifsim.Chooser, st *Stats, render bool) *Outcome {
 		&verifsim.OrderPolicy{Kind: verifsim.OrdShuffle, Seed: seedA}, &verifsim.OrderPolicy{Kind: verifsim.OrdShuffle, Seed: seedB})
 	for k := 1; k < 24; k++ {
 		pols = append(pols, &verifsim.OrderPolicy{Kind: verifsim.OrdPerm, Param: k, Seed: seedA})
+	}
+	if ref.cost > 4000 {
+		// a long-running case: two alternative orders instead of twenty-eight
+		pols = pols[:1]
+		pols = append(pols, &verifsim.OrderPolicy{Kind: verifsim.OrdShuffle, Seed: seedA})
+		st.probe("long-case-few-orders")
 	}
 	sitesHit := 0
 	for _, pol := range pols {
